@@ -234,7 +234,7 @@ func runC01Unit(c *explore.Ctx, prop string, oracle func(w *Writers, a C01Arg)) 
 func init() {
 	explore.Register(&explore.CheckDef{
 		ID: "C01", Level: "model_checking",
-		Rule: "explicit-state DFS over histories (write by any writer, merge(i<-j), re-announcement) for the three store types; an extra observer replica receives heads of any writer at any time by manual Sync, topic message or direct-channel payload, plus announcements of arbitrary single entries and concurrent pairs in both list orders; replicas are restarted and reloaded from the cache, and saved/reloaded through snapshots. Oracle in every state, every replica: differential (same entry set => same ordered list, heads and view as the first path that reached that set) and reference (list == (time,writer) sort, heads == maximal elements, view == replay). Non-trivial = distinct states in which some replica holds entries of two writers.",
+		Rule: "explicit-state DFS over histories (write by any writer, merge(i<-j), re-announcement) for the three store types; an extra observer replica receives heads of any writer at any time by manual Sync, topic message or direct-channel payload, plus announcements of arbitrary single entries and concurrent pairs in both list orders; replicas are restarted and reloaded from the cache, and saved/reloaded through snapshots. Gated units: replica 0 merges the other writers' heads with every block fetch of its replicator parked; all release orders with a bounded number of deviations, with one local write and one duplicate announcement allowed while fetches are in flight. Oracle in every state, every replica: differential (same entry set => same ordered list, heads and view as the first path that reached that set) and reference (list == (time,writer) sort, heads == maximal elements, view == replay). Non-trivial = distinct states in which some replica holds entries of two writers.",
 		Units: func(tier string) []explore.Unit {
 			var u []explore.Unit
 			kinds := []struct{ kind, alpha string }{{"eventlog", "one"}, {"keyvalue", "twokeys"}, {"docstore", "twokeys"}, {"keyvalue", "tiny"}}
@@ -256,6 +256,16 @@ func init() {
 				// reload from disk and snapshot round trips
 				u = append(u, c01Units(C01Arg{DFSArg: DFSArg{Kind: k.kind, Writers: 2, Depth: d3, Alpha: k.alpha}, Observer: true, Routes: []string{"direct"}, Reload: true, Snapshot: true}, 16)...)
 			}
+			// fetch completion orders inside one merge, with duplication and a local write in flight
+			gb := 2
+			if tier == "thorough" {
+				gb = 4
+			}
+			for _, kind := range []string{"eventlog", "keyvalue"} {
+				for _, sh := range []string{"own0-chain3", "own2-chain3", "own2-fork", "own1-chain2x2"} {
+					u = append(u, gmUnits(GMArg{Kind: kind, Shape: sh, Writes: 1, Dups: 1, Bound: gb}, 8, "G")...)
+				}
+			}
 			return u
 		},
 		Budget: func(tier string) float64 {
@@ -265,12 +275,16 @@ func init() {
 			return 200
 		},
 		RunUnit: func(c *explore.Ctx) {
+			if strings.HasPrefix(c.Spec.Unit.Arg, "G") {
+				runGatedMerge(c, c.Spec.Unit.Arg[1:], "C01", func(w *Writers) { w.Oracles = append(w.Oracles, OracleConvergence("C01")) })
+				return
+			}
 			runC01Unit(c, "C01", func(w *Writers, a C01Arg) { w.Oracles = append(w.Oracles, OracleConvergence("C01")) })
 		},
 		Assumptions: []string{
 			"environment is the deterministic simulation in /verif/mc/sim; announcements are wire-format (JSON) copies of real heads",
 			"no two distinct entries carry the same (Lamport time, writer) pair (each identity writes through one live, loaded store)",
-			"fetch completion order inside one announcement is left to the Go scheduler in these units and enumerated separately in the gated units",
+			"fetch completion order inside one announcement is left to the Go scheduler in the ungated units and enumerated in the gated-merge units",
 		},
 	})
 }
